@@ -444,6 +444,8 @@ func runC07(c *Ctx) {
 	})
 
 	entryRule(c, "R-C07-ATOMICWRITE")
+	updateCallersRule(c, "R-C07-ATOMICWRITE")
+	dispatcherRule(c, "R-C07-READCHECK") // the expiry test lives in the shard's get: no dispatcher applies it to writes
 	// "the TTL alone never hides an item": an expired entry is skipped, it does not end the enumeration of its shard
 	importRulesWhere(c, runC13, map[string]string{"R-C13-ITER": "R-C07-READCHECK"}, func(o *Obligation) bool {
 		return strings.HasPrefix(o.Construct, "shardedMap.IterValues")
